@@ -103,10 +103,12 @@ func (s *jwtSigner) load() error {
 
 	var kse *keystore.Entry
 
-	if len(s.keyID) == 0 {
-		kse, err = ks.Entries()[0], nil
-	} else {
+	if len(s.keyID) != 0 {
 		kse, err = ks.GetKey(s.keyID)
+	} else if entries := ks.Entries(); len(entries) != 0 {
+		kse = entries[0]
+	} else {
+		err = errorchain.NewWithMessage(keystore.ErrNoSuchKey, "key store contains no keys")
 	}
 
 	if err != nil {
